@@ -181,11 +181,17 @@ class ManualPublisher:
     def subscribe(self, subscriber):
         self.subscriber = subscriber
         self._rec('subscribe')
+        if self.script.get('bug_subscribe'):
+            self.world.fault_fired('buggify_publisher_subscribe')
+            raise AppError('buggify publisher.subscribe')
         subscriber.on_subscribe(self)
 
     # Subscription
     def request(self, n):
         self._rec('request', n=n)
+        if self.script.get('bug_request'):
+            self.world.fault_fired('buggify_publisher_request')
+            raise AppError('buggify subscription.request')
         if self.done or self.cancelled:
             return
         self.credit += n
